@@ -20,7 +20,10 @@ CONSTANTS MaxInv,     \* invocations per behaviour
           Js,         \* values of -j
           Ks,         \* values of -k (0 = unlimited)
           Crashes,    \* TRUE: ninja may die at any point of a build (C07)
-          Toks        \* jobserver pool sizes offered to ninja (tokens in the FIFO besides the implicit slot); 99 = no jobserver
+          Toks,       \* jobserver pool sizes offered to ninja (tokens in the FIFO besides the implicit slot); 99 = no jobserver
+          Prio        \* TRUE: the ready queue and the pools' delayed sets are ordered by critical-path weight as in the code
+                      \* (Plan::ComputeCriticalPath, EdgePriorityQueue) and phony statements wait for a slot like commands;
+                      \* FALSE: any ready statement may start next (every priority heuristic at once)
 
 RawGraphs == ndJsonDeserialize(IF "GRAPHS" \in DOMAIN IOEnv THEN IOEnv.GRAPHS ELSE "graphs.ndjson")
 Vstr(s, ver) == (IF s.gen THEN "gen" ELSE "v" \o ToString(ver)) \o (IF s.rsp THEN "|rsp" ELSE "")
@@ -49,7 +52,7 @@ Env == [g |-> g, nm |-> [f \in DOMAIN disk |-> disk[f].m],
 Iv0 == [x |-> 0, targets |-> <<>>, j |-> 1, k |-> 1, env |-> 0, st |-> 0, notrdy |-> {}, want |-> [y \in {} |-> "none"],
         we |-> 0, ce |-> 0, sched |-> {}, ready |-> {}, delayed |-> {}, running |-> {}, started |-> <<>>, startDone |-> <<>>, doneOK |-> {},
         failed |-> {}, nfail |-> 0, codes |-> {}, T0 |-> <<>>, exp |-> {}, need |-> {}, L0 |-> <<>>, code |-> 0, msg |-> "", skipRec |-> {},
-        js |-> 0 - 1, free |-> 0, imp |-> FALSE]
+        js |-> 0 - 1, free |-> 0, imp |-> FALSE, prio |-> <<>>]
 Init ==
   /\ raw \in {RawGraphs[k] : k \in DOMAIN RawGraphs}
   /\ vers = [i \in DOMAIN raw.stmts |-> 1]
@@ -74,12 +77,13 @@ Schedule(v, i) ==
   ELSE IF PoolDepthG(p) # 0 /\ UseOf(v.sched, p) >= PoolDepthG(p)
        THEN [v EXCEPT !.want[i] = "finish", !.delayed = @ \cup {i}]
        ELSE [v EXCEPT !.want[i] = "finish", !.sched = @ \cup {i}, !.ready = @ \cup {i}]
-\* Pool::RetrieveReadyEdges: move delayed statements of pool p while there is room (lowest id first)
+\* Pool::RetrieveReadyEdges: move delayed statements of pool p while there is room (DelayedEdges is ordered by
+\* WeightedEdgeCmp: equal weights, so highest priority first; without Prio: lowest id first)
 RECURSIVE Retrieve(_, _)
 Retrieve(v, p) ==
   LET d == {i \in v.delayed : St(g, i).pool = p} IN
   IF d = {} \/ PoolDepthG(p) = 0 \/ UseOf(v.sched, p) >= PoolDepthG(p) THEN v
-  ELSE LET i == CHOOSE x \in d : \A y \in d : x <= y IN
+  ELSE LET i == IF Prio THEN TopOf(v.prio, d) ELSE CHOOSE x \in d : \A y \in d : x <= y IN
        Retrieve([v EXCEPT !.delayed = @ \ {i}, !.sched = @ \cup {i}, !.ready = @ \cup {i}], p)
 
 \* Plan::EdgeFinished(success) + NodeFinished + EdgeMaybeReady (recursive through unwanted statements)
@@ -151,12 +155,18 @@ Invoke(targets, j, k, tok) ==
                 we |-> Cardinality(Wanted(w)), ce |-> Cardinality(WantedCmd(w)), sched |-> {}, ready |-> {}, delayed |-> {},
                 running |-> {}, started |-> <<>>, startDone |-> <<>>, doneOK |-> {}, failed |-> {}, nfail |-> 0, codes |-> {},
                 T0 |-> TT, exp |-> exp, need |-> Needed(g, TT, L, tg), L0 |-> L, code |-> 0, msg |-> "", skipRec |-> {i \in r.st.skipped : Rec(g, TT, L, i) # {}},
-                js |-> IF tok = 99 THEN 0 - 1 ELSE tok, free |-> IF tok = 99 THEN 0 ELSE tok, imp |-> FALSE]
-         \* ScheduleInitialEdges
+                js |-> IF tok = 99 THEN 0 - 1 ELSE tok, free |-> IF tok = 99 THEN 0 ELSE tok, imp |-> FALSE,
+                prio |-> CritW(env, r.st, r.pt)]
+         \* ScheduleInitialEdges: members of a pool with a depth are all delayed first and then retrieved once per pool,
+         \* "so higher priority edges are retrieved first, not the ones that happen to be first in the want_ map"
          RECURSIVE Init1(_, _)
          Init1(v, q) == IF q = {} THEN v ELSE LET i == CHOOSE x \in q : \A y \in q : x <= y IN
-                          Init1(IF v.want[i] = "start" /\ InputsReady(v.st, v.notrdy, i) THEN Schedule(v, i) ELSE v, q \ {i})
-         v1 == Init1(v0, DOMAIN w)
+                          Init1(IF v.want[i] = "start" /\ InputsReady(v.st, v.notrdy, i)
+                                THEN (IF Prio /\ PoolDepthG(St(g, i).pool) # 0 THEN [v EXCEPT !.want[i] = "finish", !.delayed = @ \cup {i}] ELSE Schedule(v, i))
+                                ELSE v, q \ {i})
+         RECURSIVE RetrAll(_, _)
+         RetrAll(v, ps) == IF ps = {} THEN v ELSE LET p == CHOOSE x \in ps : TRUE IN RetrAll(Retrieve(v, p), ps \ {p})
+         v1 == RetrAll(Init1(v0, DOMAIN w), {St(g, i).pool : i \in DOMAIN w})
      IN /\ kf' = (kf \/ (exp # expS /\ v0.skipRec # {}))
         /\ IF missing THEN /\ pc' = "idle" /\ iv' = [v0 EXCEPT !.code = 1, !.msg = "missing"]
                            /\ last' = [ok |-> FALSE, targets |-> targets, crashed |-> last.crashed]
@@ -166,7 +176,10 @@ Invoke(targets, j, k, tok) ==
   /\ ninv' = ninv + 1 /\ nenv' = 0
   /\ UNCHANGED <<raw, vers, disk, clock, blog, dlog, dfile, L, F>>
 
-CanStart == pc = "build" /\ Budget(iv) /\ iv.ready # {} /\ (IF iv.js >= 0 THEN SlotFree(iv) ELSE (Cardinality(iv.running) < iv.j \/ \E i \in iv.ready : St(g, i).phony))
+\* Builder::Build: FindWork is called only while the runner has capacity - also for a phony statement at the top of the queue
+CanStartV(v) == Budget(v) /\ v.ready # {} /\ (IF v.js >= 0 THEN SlotFree(v) ELSE (Cardinality(v.running) < v.j \/ (~Prio /\ \E i \in v.ready : St(g, i).phony)))
+CanStart == pc = "build" /\ CanStartV(iv)
+Top(v) == TopOf(v.prio, v.ready)
 
 ContentOf(s) == NewC(s, [f \in DOMAIN disk |-> IF disk[f].m > 0 THEN disk[f].c ELSE Missing(f)])
 
@@ -208,6 +221,7 @@ RecM(v, r, d1) == LET s == St(g, r.i)  outs == s.outs \o s.iouts IN
 
 Start(i) ==
   /\ pc = "build" /\ Budget(iv) /\ i \in iv.ready /\ clock < MaxClock
+  /\ Prio => i = Top(iv) /\ (iv.js < 0 => Cardinality(iv.running) < iv.j)
   /\ LET s == St(g, i) IN
      IF s.phony
      THEN /\ SlotFree(iv)          \* taken and handed back on the spot
